@@ -488,6 +488,11 @@ async fn socket_stream(out: &mut UnitOut, ty: &str, stage: u64, sub: u64, class:
     // the connection now ends (REQ would otherwise wait for it forever)
     conn.close_full(EndKind::Eof);
     sim::settle().await;
+    if ty == "REQ" {
+        // a request to the hostile peer may still be outstanding: REQ rightly
+        // refuses to send until that recv has been made (it ends with an error)
+        let _ = recv_now(&mut sock).await;
+    }
     match healthy_exchange(&mut sock, 7).await {
         Ok(_) => out.count("healthy_exchange_ok"),
         Err(e) => out.violation(
